@@ -6,7 +6,7 @@
 From Coq Require Import List Arith NArith Permutation.
 From Falco Require Import Base.Res Gen.InferScopes Model.Include Model.ScopeInfer
   Proofs.IncludeTotal Proofs.ScopeInferLfp Proofs.ScopeInferTerm Proofs.DetectOrder Proofs.InferMain
-  Proofs.DeclPerm Proofs.DetectSpec Gen.MapRanges Model.LintMapRanges Proofs.MapPasses Proofs.ScopeRules.
+  Proofs.DeclPerm Proofs.DetectSpec Gen.MapRanges Model.LintMapRanges Proofs.MapPasses Proofs.ScopeRules Gen.ContextState Model.LintContextState.
 Import ListNotations.
 
 (* Include expansion terminates within (number of module files + 1) nested calls on EVERY module
@@ -106,6 +106,19 @@ Proof. exact detect_on_cycle_refuted. Qed.
 Theorem C11_map_ranges_audited : map_ranges = map fst audited_ranges.
 Proof. reflexivity. Qed.
 
+(* T tie: the mutable state of the linter context.  The fields of context.Context and the fields every method
+   writes (go/types, transitively through Context method calls) are regenerated on every run; the audited
+   classification of every field is CHECKED against them: the scope-entering methods are exactly Scope and
+   UserDefinedFunctionScope; every ResetOnEntry field (the re.group.N counters) is reset by EVERY scope-entering
+   method; every PerSubroutine field is reset by Restore or by lintSubRoutineDeclaration; ReadOnly fields are never
+   written; root registries are not touched by scope entry / exit.  A field that is no longer reset on one entry
+   path, a new field or a new scope-entering method breaks this by name. *)
+Theorem C11_context_state_audited :
+  map fst audited_fields = context_fields /\
+  entry_methods = expected_entry_methods /\
+  forallb class_ok audited_fields = true.
+Proof. split; [reflexivity | split; reflexivity]. Qed.
+
 (* the initialisation loops of inferSubroutineScopes: every iteration rewrites only its own entry *)
 Theorem C11_pointwise_order_free :
   forall (g : name -> N -> N) order order' (s : state),
@@ -146,6 +159,7 @@ Proof. exact decl_permutation_refuted. Qed.
 Print Assumptions C11_infer_decl_permutation.
 Print Assumptions C11_decl_permutation_refuted.
 Print Assumptions C11_scope_rule_tables.
+Print Assumptions C11_context_state_audited.
 Print Assumptions C11_map_ranges_audited.
 Print Assumptions C11_pointwise_order_free.
 Print Assumptions C11_detect_spec.
